@@ -211,6 +211,14 @@ def check(run: Run) -> None:
         wl = ASSERT_WHITELIST.get(fi.qual) or _BY_PATH.get(fi.qual.split(":")[1]) or inherited.get(fi.qual)
         if wl is None and isinstance(t, ast.Compare) and len(t.ops) == 1 and isinstance(t.ops[0], ast.IsNot) and isinstance(t.comparators[0], ast.Constant) and t.comparators[0].value is None and isinstance(t.left, ast.Attribute) and isinstance(t.left.value, ast.Name) and fi.cls is not None and fi.pos_params and t.left.value.id == fi.pos_params[0]:
             wl = "bookkeeping invariant of the object's own state (self.<attr> is not None)"
+        if wl is None and isinstance(t, ast.Compare) and len(t.ops) == 1 and isinstance(t.ops[0], ast.IsNot) and isinstance(t.comparators[0], ast.Constant) and t.comparators[0].value is None and isinstance(t.left, ast.Attribute) and isinstance(t.left.value, ast.Name) and fa.cfg.has_node(t.left.value):
+            # the same about a worker object this function has just made (a visitor it constructed and ran)
+            ot_ = strip_sites(fa.term_of(t.left.value))
+            ot_ = ot_[1] if ot_[0] == "upd" else ot_
+            from ..model import ClassInfo as _CI
+
+            if ot_[0] == "app" and ot_[1][0] == "global" and isinstance(m.lookup_target(ot_[1][1]), _CI):
+                wl = "bookkeeping invariant of a worker object made in this function (<obj>.<attr> is not None)"
         if wl is None and isinstance(t, ast.Compare) and len(t.ops) == 1 and isinstance(t.ops[0], ast.IsNot) and isinstance(t.comparators[0], ast.Constant) and t.comparators[0].value is None and isinstance(t.left, ast.Name):
             # a local that is not None on every path to the assert (read in the function's view, where helper objects
             # are taken apart): the assert restates what the code before it established
